@@ -26,7 +26,6 @@ import (
 	crstate "github.com/elastos/Elastos.ELA/cr/state"
 	"github.com/elastos/Elastos.ELA/crypto"
 	"github.com/elastos/Elastos.ELA/dpos/state"
-	"github.com/elastos/Elastos.ELA/utils"
 )
 
 // ELA is the unit of every amount in the spec.
@@ -165,6 +164,8 @@ type inst struct {
 	chain  *blockchain.BlockChain
 	com    *crstate.Committee
 	best   uint32
+	orig   *state.State // the State NewArbitrators created (kept alive by its event subscription)
+	ckp    *checkpoint.Manager
 	refs   map[string]common2.Output // outpoint refer key -> output (harness UTXO view)
 }
 
@@ -179,9 +180,18 @@ func (in *inst) free() {
 	if in == nil || in.arb == nil {
 		return
 	}
-	in.arb.State.StateKeyFrame = state.NewStateKeyFrame()
-	in.arb.State.History = utils.NewHistory(1)
-	in.arb.History = utils.NewHistory(1)
+	if in.ckp != nil {
+		in.ckp.Close() // stops the file-channel goroutines of the registered checkpoints
+		in.ckp = nil
+	}
+	if in.orig != nil {
+		in.orig.StateKeyFrame = nil
+		in.orig.History = nil
+		in.orig = nil
+	}
+	in.arb.State.StateKeyFrame = nil
+	in.arb.State.History = nil
+	in.arb.History = nil
 	in.arb.Snapshots = nil
 	in.arb = nil
 }
@@ -192,6 +202,7 @@ func newInst() *inst {
 	}
 	in := &inst{params: sharedParams, refs: map[string]common2.Output{}}
 	ckp := checkpoint.NewManager(in.params)
+	in.ckp = ckp
 	arb, err := state.NewArbitrators(in.params, nil, nil, nil, nil, nil, nil, nil, nil, ckp)
 	if err != nil {
 		panic(err)
@@ -218,6 +229,7 @@ func newInst() *inst {
 		func() bool { return false },
 		nil, nil, nil, nil, nil, nil, nil)
 	st.GetTxReference = getRef
+	in.orig = arb.State
 	arb.State = st
 	arb.DutyIndex = dutyIndexStart
 	in.arb = arb
